@@ -11,5 +11,16 @@ for i in 01 02 03 04 05 06 07 08 09 10 11 12 13 14 15 16 17 18 19 20; do
   echo "$out" | tail -1
   if [ $r -ne 0 ]; then rc=1; echo "$out" | grep -m3 "VIOLATION\|finding"; fi
 done
+if [ "${1:-}" = "thorough" ]; then
+  # all thorough tiers in parallel (sensitivity witnesses must load, type-check and be caught)
+  for i in 01 02 03 04 05 06 07 08 09 10 11 12 13 14 15 16 17 18 19 20; do
+    ( bin/simdvet check C$i --tier thorough > /tmp/precommit.C$i.log 2>&1; echo $? > /tmp/precommit.C$i.rc ) &
+  done; wait
+  for i in 01 02 03 04 05 06 07 08 09 10 11 12 13 14 15 16 17 18 19 20; do
+    grep -v '^  ' /tmp/precommit.C$i.log | tail -1
+    if [ "$(cat /tmp/precommit.C$i.rc)" != "0" ]; then rc=1; grep -m3 -A1 "VIOLATION" /tmp/precommit.C$i.log | cut -c1-400; fi
+    rm -f /tmp/precommit.C$i.log /tmp/precommit.C$i.rc
+  done
+fi
 python3 scripts/gen_manifest.py || rc=1
 exit $rc
